@@ -13,11 +13,11 @@ Check vcd_fst_same_report :
   (forall d n, (length d <= n)%nat -> lz_decompress (lz_compress d) n = Some d) ->
   forall cap, 1 <= cap -> cap <= 65536 ->
   forall id bits tpes ops e blocks ttb (cs : list (N * list byte)) sw,
-  (1 <= bits)%nat -> nth_error tpes id = Some (EncBits bits) -> Forall (op_ok id) ops ->
+  (1 <= bits)%nat -> nth_error tpes id = Some (EncBits bits) -> Forall (op_ok id bits) ops ->
   N.of_nat (count_vcd id ops) * (10 + N.of_nat bits) < 4294967264 ->
   run_ops parse_f64 lz_compress cap (enc_new tpes) ops = Ok e ->
   enc_finish lz_compress e = Ok (blocks, ttb) -> N.of_nat (length ttb) < 4294967296 ->
-  recorded id ops [] false = map (fun c : N * list byte => (fst c, 98 :: snd c)) cs ->
+  recorded id ops [] false = map (fun c : N * list byte => (fst c, RText (98 :: snd c))) cs ->
   Forall (fun c : N * list byte => length (snd c) = bits) cs ->
   sw_run (sw_new (EncBits bits)) (map (fun c : N * list byte => (fst c, FvString (snd c))) cs) = Ok sw ->
   exists sig, load_signal lz_decompress blocks id (EncBits bits) = Ok sig /\
